@@ -251,6 +251,9 @@ func genMap(r *common.Rng, depth int, nf int) *node {
 		if r.Chance(3) {
 			k = keyPool[len(keyPool)-1]
 		}
+		if i > 0 && r.Chance(12) {
+			k = m.keys[r.Intn(len(m.keys))] // a key this map already has
+		}
 		m.keys = append(m.keys, k)
 		m.khdr = append(m.khdr, r.Intn(12)/10*(1+r.Intn(3)))
 		m.kids = append(m.kids, genNode(r, depth))
@@ -509,6 +512,9 @@ func genValue(r *common.Rng, kind int, target *node) []byte {
 		v, _ := genLeaf(r)
 		return v
 	case 7: // MERGE
+		if x < 55 {
+			return genMergeValue(r, target)
+		}
 		if x < 85 {
 			m := genMap(r, 1, r.Intn(4))
 			if r.Chance(10) {
@@ -754,6 +760,61 @@ func smallMap(r *common.Rng, keys []string, class int) []byte {
 	return out
 }
 
+
+// genMergeValue builds a MERGE value as a hand-rolled client might send it: 0-6 (sometimes
+// 14-18) fields whose keys are drawn from the keys the target map already has, from a small
+// pool of keys that are new to it, and - deliberately often - from the keys already used
+// earlier in the same value (a repeated key is legal msgpack; the documented MERGE processes
+// the fields in order, so the last occurrence wins and a new key is appended once).  Key
+// strings use every header width (the same key may appear as fixstr and as str8), the map
+// header may be non-minimal, values are scalars of varied kinds and now and then containers.
+func genMergeValue(r *common.Rng, target *node) []byte {
+	var existing []string
+	if target != nil && target.kind == 1 {
+		existing = target.keys
+	}
+	fresh := []string{"k", "j", "new", "zz", "", "a", "k_long_key_of_more_than_thirty_two_bytes_x"}
+	n := r.Intn(7)
+	if r.Chance(8) {
+		n = 14 + r.Intn(5)
+	}
+	var used []string
+	var keys []string
+	for i := 0; i < n; i++ {
+		x := r.Intn(100)
+		var k string
+		switch {
+		case x < 35 && len(used) > 0:
+			k = used[r.Intn(len(used))] // repeat a key of this same value
+		case x < 60 && len(existing) > 0:
+			k = existing[r.Intn(len(existing))]
+		case x < 90:
+			k = fresh[r.Intn(len(fresh)-1)]
+		default:
+			k = fresh[len(fresh)-1]
+		}
+		if n > 8 && x >= 35 {
+			k = "m" + strconv.Itoa(i%11)
+		}
+		used = append(used, k)
+		keys = append(keys, k)
+	}
+	out := contHeader(true, len(keys), hdrChoice(r))
+	for _, k := range keys {
+		out = append(out, encStr(k, r.Intn(14)/10*(1+r.Intn(3)))...)
+		switch {
+		case r.Chance(8):
+			out = append(out, genContainerValue(r)...)
+		case r.Chance(50):
+			out = append(out, numOf(r, 1+r.Intn(3))...)
+		default:
+			v, _ := genLeaf(r)
+			out = append(out, v...)
+		}
+	}
+	return out
+}
+
 func genChain(r *common.Rng) pcase {
 	doc := genBody(r)
 	var locs []located
@@ -767,8 +828,23 @@ func genChain(r *common.Rng) pcase {
 	case x < 55 && len(locs) > 0:
 		l := locs[r.Intn(len(locs))]
 		focus, target = l.path, l.n
-	case x < 70:
+	case x < 65:
 		focus = []string{"new", "zz.q", "new.sub.deep", "a.new"}[r.Intn(4)]
+	case x < 80:
+		// force a nested map whose own keys repeat (k, j, k ...) in front of the body: the slot
+		// for MERGE / SET / DELETE / INC below it
+		mcl := 1 + r.Intn(3)
+		m := &node{kind: 1, hdr: hdrChoice(r)}
+		for _, k := range [][]string{{"k", "j", "k"}, {"k", "k"}, {"j", "k", "a", "k", "j"}, {"a", "k"}}[r.Intn(4)] {
+			m.keys = append(m.keys, k)
+			m.khdr = append(m.khdr, r.Intn(13)/10*(1+r.Intn(3)))
+			m.kids = append(m.kids, &node{kind: 0, raw: numOf(r, mcl), class: mcl})
+		}
+		focus = []string{"m", "cfg"}[r.Intn(2)]
+		doc.keys = append([]string{focus}, doc.keys...)
+		doc.khdr = append([]int{0}, doc.khdr...)
+		doc.kids = append([]*node{m}, doc.kids...)
+		target = m
 	default:
 		// force a top-level numeric leaf (and sometimes a duplicate of its key) into the body
 		cl := 1 + r.Intn(3)
@@ -777,7 +853,7 @@ func genChain(r *common.Rng) pcase {
 		pos := r.Intn(len(doc.kids) + 1)
 		ins := func(at int, k string, v *node) {
 			doc.keys = append(doc.keys[:at], append([]string{k}, doc.keys[at:]...)...)
-			doc.khdr = append(doc.khdr[:at], append([]int{0}, doc.khdr[at:]...)...)
+			doc.khdr = append(doc.khdr[:at], append([]int{r.Intn(13) / 10 * (1 + r.Intn(3))}, doc.khdr[at:]...)...)
 			doc.kids = append(doc.kids[:at], append([]*node{v}, doc.kids[at:]...)...)
 		}
 		ins(pos, focus, leaf)
@@ -800,7 +876,11 @@ func genChain(r *common.Rng) pcase {
 	}
 	num := func() []byte { return numOf(r, cls) }
 	add := func(kind int, path string, v []byte) { c.ops = append(c.ops, mkop(kind, path, v)) }
-	switch r.Intn(14) {
+	pat := r.Intn(17)
+	if (target == nil || target.kind == 1) && r.Chance(50) {
+		pat = []int{6, 13, 13, 15}[r.Intn(4)]
+	}
+	switch pat {
 	case 0: // retype, then increment what was just stored (same class, other width)
 		add(0, focus, num())
 		add(2, focus, num())
@@ -889,6 +969,41 @@ func genChain(r *common.Rng) pcase {
 		add(0, focus, scalarOrNum(r))
 		add(2, focus, num())
 		add([]int{5, 2, 0}[r.Intn(3)], []string{focus + "[99]", focus + ".x.y[0]", "a..b"}[r.Intn(3)], num())
+	case 13: // merge a value that repeats keys (new to the target or not), then use such a key
+		mv := genMergeValue(r, target)
+		add(7, focus, mv)
+		k := []string{"k", "j", "new", "zz", "a"}[r.Intn(5)]
+		switch r.Intn(5) {
+		case 0:
+			add(1, focus+"."+k, nil)
+			add(2, focus+"."+k, num())
+		case 1:
+			add(2, focus+"."+k, num())
+		case 2:
+			add(7, focus, genMergeValue(r, target))
+		case 3:
+			add(0, focus+"."+k, scalarOrNum(r))
+			add(7, focus, mv)
+		case 4:
+			add(1, focus+"."+k, nil)
+			add(1, focus+"."+k, nil)
+			add(0, focus+"."+k, scalarOrNum(r))
+		}
+	case 14: // the same value appended twice (and prepended), then removed by value once / twice
+		v := scalarOrNum(r)
+		add(3, focus+"[]", v)
+		add(3+r.Intn(2), focus+"[]", v)
+		add(6, focus, v)
+		if r.Bool() {
+			add(6, focus, v)
+			add(6, focus, v)
+		}
+	case 15: // nested slots that share one key name: k.k.k created, overwritten and deleted level by level
+		k := []string{"k", "a", "n"}[r.Intn(3)]
+		add(0, focus+"."+k+"."+k, scalarOrNum(r))
+		add(7, focus+"."+k, smallMap(r, []string{k, k, "j"}, cls))
+		add([]int{1, 2, 0}[r.Intn(3)], focus+"."+k+"."+k, num())
+		add(1, focus+"."+k, nil)
 	default: // increment then a container value on the same slot (known: opaque afterwards)
 		add(2, focus, num())
 		add(0, focus, genContainerValue(r))
@@ -971,7 +1086,7 @@ func witnesses() []pcase {
 func main() {
 	a := common.ParseArgs()
 	run := common.NewRun(a, "C13", "HV.Patch.Check")
-	run.Meta.Rule = "a case is (msgpack body, 0-7 ops, optional condition) given to the real msgpackpatch.ApplyWithCondition; bodies are generated documents (depth <= 4, every leaf code, minimal and non-minimal headers, duplicate keys, 13-17 element containers) plus a stream of truncated/corrupted/non-map bodies; paths come from the document (existing, missing, negative/out-of-range indices, append marker) plus malformed path strings; values are well-formed scalars, containers, class-matched numeric deltas, and malformed byte strings; a third stream are chains: 2-6 ops of one patch on the same slot and its neighbourhood (retype then INC, delete then re-create, create then overwrite the parent, append across 15/16 then remove, merge then INC a merged key, repeated INC/SET, duplicate keys), so that later ops read what earlier ops wrote; every patch is also evaluated a second time and, without a condition, through Apply (same result required), and the caller's body/op bytes must be unchanged; non-trivial = the patch succeeded and changed the body, or failed after a successful parse with an error raised by an op or the condition"
+	run.Meta.Rule = "a case is (msgpack body, 0-7 ops, optional condition) given to the real msgpackpatch.ApplyWithCondition; bodies are generated documents (depth <= 4, every leaf code, minimal and non-minimal headers, duplicate keys, 13-17 element containers) plus a stream of truncated/corrupted/non-map bodies; paths come from the document (existing, missing, negative/out-of-range indices, append marker) plus malformed path strings; values are well-formed scalars, containers, class-matched numeric deltas, and malformed byte strings; a third stream are chains: 2-6 ops of one patch on the same slot and its neighbourhood (retype then INC, delete then re-create, create then overwrite the parent, append across 15/16 then remove, merge then INC a merged key, repeated INC/SET, duplicate keys in the body and inside MERGE values - new to the target or not, same key under different string headers -, the same value appended twice then removed by value, nested slots sharing one key name), so that later ops read what earlier ops wrote; every patch is also evaluated a second time and, without a condition, through Apply (same result required), and the caller's body/op bytes must be unchanged; non-trivial = the patch succeeded and changed the body, or failed after a successful parse with an error raised by an op or the condition"
 	rng := common.NewRng(a.Seed, "C13")
 
 	n, nbad, nchain := 2000, 200, 1000
